@@ -30,12 +30,12 @@ EXE_MODES = {"nopic": (["-fno-pic"], ["-no-pie"]), "pie": (["-fPIE"], ["-pie"]),
 
 def sym_strategy():
     return st.fixed_dictionaries({
-        "kind": st.sampled_from(["func", "func", "data", "data", "bss", "const"]),
+        "kind": st.sampled_from(["func", "func", "func", "data", "data", "data", "bss", "const", "tls", "ifunc"]),
         "owner": st.integers(0, 3),          # 0 = executable, k = library k (mod number of libraries)
         "users": st.lists(st.integers(0, 3), min_size=1, max_size=4),
         "alias": st.sampled_from([False, False, True]),
         "prot": st.sampled_from([False] * 7 + [True]),
-        "weakalias": st.booleans(),
+        "strongalias": st.sampled_from([False] * 15 + [True]),
     })
 
 
@@ -43,7 +43,8 @@ def case_strategy():
     return st.fixed_dictionaries({
         "exe": st.sampled_from(["nopic", "nopic", "pie", "pie", "picpie", "picnopie"]),
         "nlibs": st.integers(1, 3),
-        "syms": st.lists(sym_strategy(), min_size=2, max_size=6),
+        "syms": st.lists(sym_strategy(), min_size=2, max_size=5),
+        "force": st.sampled_from([True, True, True, False]),
         "opt": st.sampled_from(["-O0", "-O1", "-O2"]),
         "who": st.sampled_from(["exe", "exe", "all", "all", "libs"]),
         "nocopyreloc": st.sampled_from([False] * 5 + [True]),
@@ -59,20 +60,31 @@ def normalise(case):
     """Symbols with owner/users resolved to module indices 0..nlibs (0 = executable)."""
     n = case["nlibs"]
     out = []
-    for k, s in enumerate(case["syms"]):
+    src = list(case["syms"])
+    if case["force"]:
+        # make the two witnesses of the non-trivial rule likely: library data used directly by the
+        # executable, and a function whose address is taken in the executable and in a library
+        a, b = dict(src[0]), dict(src[1])
+        a.update(kind=a["kind"] if a["kind"] != "func" else "data", owner=1 + a["owner"] % 3, users=a["users"] + [0])
+        b.update(kind="func", users=b["users"] + [0, 1])
+        src[0], src[1] = a, b
+    for k, s in enumerate(src):
         owner = s["owner"] % (n + 1)
         users = sorted({u % (n + 1) for u in s["users"]} | {owner})
         if len(users) < 2:
             users = sorted(set(users) | {(owner + 1) % (n + 1)})
         kind = s["kind"]
-        if kind == "func" and owner != 0 and 0 in users and case["exe"] == "nopic" and not case["raw"]:
+        if kind in FUNCS and owner != 0 and 0 in users and case["exe"] == "nopic" and not case["raw"]:
             owner = 0       # see in_canonical_plt_domain()
         prot = s["prot"] and owner != 0
         # GNU ld refuses copy relocations against protected data; keep protected data for PIC executables
-        if prot and kind != "func" and case["exe"] in ("nopic", "pie") and 0 in users:
+        if prot and kind not in FUNCS and case["exe"] in ("nopic", "pie") and 0 in users:
+            prot = False
+        if kind in ("tls", "ifunc"):
             prot = False
         out.append({"k": k, "name": f"s{k}", "id": 1000 + 7 * k, "kind": kind, "owner": owner, "users": users,
-                    "alias": s["alias"] and kind != "func" and owner != 0, "prot": prot, "weakalias": s["weakalias"]})
+                    "alias": s["alias"] and kind in ("data", "bss", "const") and owner != 0, "prot": prot,
+                    "strongalias": s["strongalias"]})
     return out
 
 
@@ -84,7 +96,10 @@ def in_canonical_plt_domain(case):
     function defined in a shared library (absolute relocation in code => canonical PLT entry needed;
     wild leaves the dynamic symbol's st_value 0, so other modules and the executable's own data
     relocations see the library's address instead of the PLT entry)."""
-    return case["exe"] == "nopic" and any(s["kind"] == "func" and s["owner"] != 0 and 0 in s["users"] for s in normalise(case))
+    return case["exe"] == "nopic" and any(s["kind"] in FUNCS and s["owner"] != 0 and 0 in s["users"] for s in normalise(case))
+
+
+FUNCS = ("func", "ifunc")
 
 
 def modname(m):
@@ -95,31 +110,45 @@ def module_source(m, syms):
     L = ["#define HID __attribute__((visibility(\"hidden\")))"]
     for s in syms:
         n, me = s["name"], modname(m)
-        is_func = s["kind"] == "func"
+        is_func = s["kind"] in FUNCS
         if s["owner"] == m:
             vis = "__attribute__((visibility(\"protected\"))) " if s["prot"] else ""
-            if is_func:
+            if s["kind"] == "ifunc":
+                L.append(f"static int impl_{n}(void) {{ return {s['id']}; }}")
+                L.append(f"static void *resolve_{n}(void) {{ return (void *)impl_{n}; }}")
+                L.append(f"int {n}(void) __attribute__((ifunc(\"resolve_{n}\")));")
+            elif s["kind"] == "tls":
+                L.append(f"__thread int {n} = {s['id']};")
+            elif is_func:
                 L.append(f"{vis}int {n}(void) {{ return {s['id']}; }}")
             elif s["kind"] == "data":
-                L.append(f"{vis}int {n} = {s['id']};")
+                L.append(f"{vis}int {n}{'_real' if s['alias'] else ''} = {s['id']};")
             elif s["kind"] == "bss":
-                L.append(f"{vis}int {n};")
+                L.append(f"{vis}int {n}{'_real' if s['alias'] else ''};")
             else:
-                L.append(f"{vis}const int {n} = {s['id']};")
+                L.append(f"{vis}const int {n}{'_real' if s['alias'] else ''} = {s['id']};")
             if s["alias"]:
-                w = "weak, " if s["weakalias"] else ""
+                # glibc pattern (environ/__environ): the public name is a weak alias of a strong
+                # internal name which the defining library itself uses.  GNU ld moves both along
+                # with a copy relocation of the weak name.  "strongalias": both names strong
+                # (GNU ld does not move the second name; kept as a rare class).
+                w = "" if s["strongalias"] else "weak, "
                 cst = "const " if s["kind"] == "const" else ""
-                L.append(f"extern {cst}int {n}_alias __attribute__(({w}alias(\"{n}\")));")
+                L.append(f"extern {cst}int {n} __attribute__(({w}alias(\"{n}_real\")));")
         if m not in s["users"]:
             continue
         if s["owner"] != m:
             L.append(f"extern int {n}(void);" if is_func else
-                     f"extern {'const ' if s['kind'] == 'const' else ''}int {n};")
+                     f"extern {'const ' if s['kind'] == 'const' else ''}{'__thread ' if s['kind'] == 'tls' else ''}int {n};")
         # The owner's library looks at its own data through the alias name (if any): the alias must
         # follow the symbol wherever a copy relocation moves it.
-        acc = f"{n}_alias" if (s["alias"] and s["owner"] == m) else n
-        L.append(f"HID void *sp_{me}_{n} = (void *)&{acc};")
-        L.append(f"void *st_{me}_{n}(void) {{ return sp_{me}_{n}; }}")
+        acc = f"{n}_real" if (s["alias"] and s["owner"] == m) else n
+        if s["kind"] == "tls":
+            # no static initialiser can hold a thread-local address: st_ is a second run-time view
+            L.append(f"void *st_{me}_{n}(void) {{ void *volatile p = (void *)&{acc}; return p; }}")
+        else:
+            L.append(f"HID void *sp_{me}_{n} = (void *)&{acc};")
+            L.append(f"void *st_{me}_{n}(void) {{ return sp_{me}_{n}; }}")
         L.append(f"void *rt_{me}_{n}(void) {{ return (void *)&{acc}; }}")
         if is_func:
             L.append(f"int call_{me}_{n}(void) {{ return {n}(); }}")
@@ -135,7 +164,7 @@ def main_source(syms):
     body = []
     for s in syms:
         n = s["name"]
-        is_func = s["kind"] == "func"
+        is_func = s["kind"] in FUNCS
         for m in s["users"]:
             me = modname(m)
             L.append(f"void *st_{me}_{n}(void); void *rt_{me}_{n}(void);")
@@ -267,7 +296,7 @@ class C38(Check):
             return "program-output"
         name = bad[0].split()[0]
         s = next((x for x in syms if x["name"] == name), None)
-        kind = "func" if s and s["kind"] == "func" else "data"
+        kind = s["kind"] if s and s["kind"] in ("func", "ifunc", "tls") else "data"
         what = "addr" if " addr " in bad[0] else ("call" if " call " in bad[0] else "value")
         owner = "exe-defined" if s and s["owner"] == 0 else "lib-defined"
         return f"{what}:{kind}:{owner}" + (":alias" if s and s["alias"] else "")
@@ -275,8 +304,11 @@ class C38(Check):
     @staticmethod
     def _features(case, syms, exe_path, classes):
         direct = case["exe"] in ("nopic", "pie")
-        copy = [s for s in syms if s["kind"] != "func" and s["owner"] != 0 and 0 in s["users"] and direct]
-        both = [s for s in syms if s["kind"] == "func" and 0 in s["users"] and any(u != 0 for u in s["users"])]
+        copy = [s for s in syms if s["kind"] in ("data", "bss", "const") and s["owner"] != 0 and 0 in s["users"] and direct]
+        both = [s for s in syms if s["kind"] in FUNCS and 0 in s["users"] and any(u != 0 for u in s["users"])]
+        for k in ("tls", "ifunc"):
+            if any(s["kind"] == k for s in syms):
+                classes.append(k)
         try:
             elf = Elf(exe_path)
             ncopy = sum(1 for r in elf.all_dyn_relas() if r.type == E.R_X86_64_COPY)
